@@ -15,6 +15,7 @@ import (
 
 	"verifharness/internal/cli"
 	"verifharness/internal/emit"
+	"verifharness/internal/schedx"
 )
 
 func main() { cli.Main("C01", runC01) }
@@ -143,7 +144,7 @@ func caseSx(gauge bool, progs [][]op, out runOut) string {
 	tr := make([]string, len(out.res.Trace))
 	for i, s := range out.res.Trace {
 		sched[i] = emit.I(s.Tid)
-		tr[i] = emit.Pair(emit.I(s.Tid), emit.S(s.Label))
+		tr[i] = emit.Pair(emit.I(s.Tid), emit.S(schedx.Canon(s.Label))) // "<op> <field>": receiver/local renames do not matter
 	}
 	cs := make([]string, len(out.calls))
 	for i, c := range out.calls {
